@@ -120,6 +120,9 @@ pub fn run(run: &Run) {
         let mut mask = 0u64;
         let mut n = 0u64;
         for x in lo..lo + BLOCK {
+            if run.reports() > 200 {
+                break; // enough counterexamples; do not drown in them
+            }
             let x = x as u32;
             for &y in full_a.iter() {
                 if let Some((sig, detail)) = check_pair(y, x) {
@@ -151,6 +154,9 @@ pub fn run(run: &Run) {
             .map(|chunk| {
                 let mut n = 0u64;
                 for &a in chunk {
+                    if run.reports() > 200 {
+                        break;
+                    }
                     for &d in set.iter() {
                         if let Some((sig, detail)) = check_pair(a, d) {
                             run.violation(&format!("C20/{}", sig), &detail, json!({"a": a, "d": d}));
